@@ -275,10 +275,21 @@ func vkPacketAlphabet(name string, thorough bool) []vkPkt {
 		add(func(p *vkPkt) { p.CD = i&1 != 0; p.AD = i&2 != 0; p.OPT = i&4 != 0; p.DO = i&4 != 0; p.Size = 1232 })
 		add(func(p *vkPkt) { p.CD = i&1 != 0; p.AD = i&2 != 0; p.OPT = i&4 != 0; p.DO = false; p.Size = 4096 })
 	}
-	for _, op := range []int{1, 2, 4, 5, 6} {
+	for op := 1; op < 16; op++ {
 		op := op
 		add(func(p *vkPkt) { p.Opcode = op })
 	}
+	// a response stays a response whatever else is wrong with it: QR x every opcode, bad counts, bad EDNS version
+	for op := 1; op < 16; op++ {
+		op := op
+		add(func(p *vkPkt) { p.QR = true; p.Opcode = op })
+	}
+	add(func(p *vkPkt) { p.QR = true; p.QD = 0 })
+	add(func(p *vkPkt) { p.QR = true; p.QD = 2 })
+	add(func(p *vkPkt) { p.QR = true; p.AnRR = true })
+	add(func(p *vkPkt) { p.QR = true; p.TC = true; p.Rcode = 2 })
+	add(func(p *vkPkt) { p.QR = true; p.OPT = true; p.Size = 1232; p.Version = 1 })
+	add(func(p *vkPkt) { p.QR = true; p.Opcode = 5; p.QD = 0; p.Trailing = 3 })
 	// section counts
 	add(func(p *vkPkt) { p.QD = 0 })
 	add(func(p *vkPkt) { p.QD = 2 })
